@@ -717,3 +717,83 @@ def guard_profile(body):
                 st.append(s)
         out.append(len(guards))
     return sorted(out)
+
+
+def control_dependence(body, edges=False):
+    """{block: set of switch blocks it is directly control dependent on}  (edges=True: set of (switch, successor taken))"""
+    reach = body.reachable(0)
+    pdom = postdominators(body)
+    cd = {}
+    for s in reach:
+        if body.term(s)["k"] != "switch":
+            continue
+        for t in body.succ(s):
+            if t not in reach:
+                continue
+            for x in pdom[t]:
+                if x == -1 or (x != s and x in pdom[s]):
+                    continue
+                cd.setdefault(x, set()).add((s, t) if edges else s)
+    return cd
+
+
+def influence_roots(body, local, max_steps=4000):
+    """which inputs can influence the VALUE held in `local`: backward closure over data dependences, plus -- where a local has several
+    definitions -- over the branch conditions that choose between them.  Returns a set of roots: ("param", n, fields...) for reads of
+    parameter n, ("call", callee) for results of calls without arguments that were followed, ("const",) is not reported."""
+    cde = control_dependence(body, edges=True)
+    roots = set()
+    seen = set()
+    work = [local]
+    steps = 0
+    while work and steps < max_steps:
+        steps += 1
+        l = work.pop()
+        if l in seen:
+            continue
+        seen.add(l)
+        if 1 <= l <= body.argc:
+            roots.add(("param", l))
+        ds = body.defs().get(l, [])
+        blocks = []
+        for d in ds:
+            if d[0] == "s":
+                blocks.append(d[1])
+                rv = d[3]
+                for op in rvalue_operands(rv):
+                    p = op_place(op)
+                    if p is not None:
+                        if 1 <= p[0] <= body.argc:
+                            fs = tuple(e[2] if e[2] is not None else str(e[1]) for e in p[1] if isinstance(e, list) and e[0] == "f")
+                            roots.add(("param", p[0]) + fs)
+                        work.append(p[0])
+                        for e in p[1]:
+                            if isinstance(e, list) and e[0] == "i":
+                                work.append(e[1])
+            elif d[0] == "call":
+                blocks.append(d[1])
+                for a in d[3]["args"]:
+                    p = op_place(a)
+                    if p is not None:
+                        if 1 <= p[0] <= body.argc:
+                            fs = tuple(e[2] if e[2] is not None else str(e[1]) for e in p[1] if isinstance(e, list) and e[0] == "f")
+                            roots.add(("param", p[0]) + fs)
+                        work.append(p[0])
+        if len(blocks) > 1:
+            # branch conditions that distinguish the definitions: (switch, edge) pairs some definition depends on and another does not
+            anc = []
+            for bl in blocks:
+                a, st = set(), [bl]
+                while st:
+                    x = st.pop()
+                    for (sw, t) in cde.get(x, ()):
+                        if (sw, t) not in a:
+                            a.add((sw, t))
+                            st.append(sw)
+                anc.append(a)
+            common = set.intersection(*anc)
+            for a in anc:
+                for (sw, t) in a - common:
+                    for x in operand_locals(body.term(sw)["d"]):
+                        work.append(x)
+    return roots
